@@ -242,6 +242,22 @@ def doGraph (spec ini gates progs sched : String) : String :=
     | _, _ => "bad-op"
   | _, _ => "bad-op"
 
+def doImm (spec prog : String) : String :=
+  match parseGraph spec with
+  | some defs =>
+    match parseGProg defs.length prog with
+    | some prog =>
+      if prog.length > 6 then "bad-op" else
+      let o := Imm.exec false defs prog
+      let rs := o.results.map (fun r => match r with | some v => toString v | none => ".") ++
+        List.replicate (prog.length - o.results.length) "?"
+      let p0 := if rs.isEmpty then "-" else ",".intercalate rs
+      if o.hung then s!"p0={p0} last={o.last} fin=- ## fail hang" else
+      let fin := ",".intercalate ((Graph.scratch defs o.sig).map toString)
+      s!"p0={p0} last={o.last} fin={fin}:{o.sig} ## ok"
+    | none => "bad-op"
+  | none => "bad-op"
+
 -- ---------------------------------------------------------------- sig
 
 def parseSOp (o : String) : Option Sig.Op :=
@@ -291,6 +307,7 @@ def step (_ : Unit) (line : String) : Unit × String :=
     | ["chan", polls, ms, sc] => doChan polls ms sc
     | ["memo", ini, progs, sc] => doMemo ini progs sc
     | ["graph", spec, ini, gates, progs, sc] => doGraph spec ini gates progs sc
+    | ["imm", spec, prog] => doImm spec prog
     | ["sig", progs, sc] => doSig progs sc
     | ["stress", "effect", seed, wr, it] =>
       -- free-running threads: the model only states the expected outcome (testing, not correspondence)
